@@ -48,7 +48,7 @@ func main() {
 					}
 				}
 			} else {
-				scs = consnet.Product(cfgs, full, d)
+				scs = append(scs, consnet.Product(cfgs, full, d)...)
 			}
 			// crash of each honest node before every (quick: every 3rd) durable write in a fork attempt that only
 			// the crashed node's restored lock prevents - with the harness repair of the reloaded proposer and without
